@@ -160,7 +160,7 @@ func genC20(ctx *fw.Ctx) []fw.Case {
 		b := b
 		cases = append(cases, fw.Case{ID: fmt.Sprintf("sort/%d", b), Run: func(r *fw.Rec) { c20Sort(r, b) }})
 	}
-	for _, s := range baseSources() {
+	for _, s := range append(baseSources(), corpus.ClangSources(ctx.Thorough())...) {
 		s := s
 		cases = append(cases, fw.Case{ID: "perm/" + s.ID, Run: func(r *fw.Rec) { c20Perm(r, s) }})
 	}
